@@ -9,15 +9,21 @@
 
 package runtime
 
+// getSemaState / getNotifyState: every semaphore word (notify list) has its OWN
+// state object - the one registered under exactly its address. (Once.Do is
+// trusted to have run the map initialiser: see /verif/trusted.)
+
 //@ func getSemaState
-//@ trusted
-//@ ensures result != nil
-//@ modifies nothing
+//@ props C11
+//@ requires addr != nil
+//@ ensures C11 own-state: result != nil && result == semaMap[uintptr(addr)] && has(semaMap, uintptr(addr))
+//@ modifies everything
 
 //@ func getNotifyState
-//@ trusted
-//@ ensures result != nil
-//@ modifies nothing
+//@ props C11
+//@ requires l != nil
+//@ ensures C11 own-state: result != nil && result == notifyMap[uintptr(l)] && has(notifyMap, uintptr(l))
+//@ modifies everything
 
 //@ func semaAcquire
 //@ props C11
